@@ -28,7 +28,7 @@ class C09(object):
     exhaustive = {'thorough': True}
 
     def gen(self, rng, tier):
-        n = 160 if tier == 'quick' else 3000
+        n = 160 if tier == 'quick' else 15000
         if tier == 'thorough':
             for c in self.exhaustive_small():
                 yield c
